@@ -154,10 +154,20 @@ def impl_iter(o, limit):
     return _take(iter(x), limit, ver)
 
 
+class _Idx(object):
+    """an index that is integral only through __index__ (what list indexing accepts: numpy integers and the like)"""
+    def __init__(self, n):
+        self.n = n
+
+    def __index__(self):
+        return self.n
+
+
 def impl_index(o, i):
     import netaddr
     x, ver = _obj(o)
-    a = x[i]
+    # a quarter of the indices are handed over as an object with __index__ (chosen from the content): a list accepts those
+    a = x[_Idx(i)] if (i * 7 + len(repr(o))) % 4 == 0 else x[i]
     assert type(a) is netaddr.IPAddress
     return [a.version, int(a)]
 
